@@ -223,6 +223,12 @@ pub fn vx_chars_nth(s: &str, n: usize) -> (r: Option<char>)
     ensures r == (if (n as int) < s@.len() { Some(s@[n as int]) } else { None::<char> })
 { s.chars().nth(n) }
 
+// W.count: `s.chars().count()`
+#[verifier::external_body]
+pub fn vx_chars_count(s: &str) -> (r: usize)
+    ensures r == s@.len()
+{ s.chars().count() }
+
 // W.as_ref: `label.as_ref()` for S: AsRef<str>.  Assumes AsRef<str> implementations are pure:
 // the same value always yields a str with the same content.
 pub uninterp spec fn as_ref_view<S: ?Sized>(s: &S) -> Seq<char>;
@@ -274,6 +280,9 @@ pub broadcast axiom fn axiom_iter_seq_chars<'a>(it: core::str::Chars<'a>)
 pub assume_specification[ char::from_u32 ](i: u32) -> (r: Option<char>)
     ensures r == (if i <= 0xD7FF || (0xE000 <= i && i <= 0x10FFFF) { Some(i as char) } else { None::<char> });
 
+pub assume_specification[ char::is_ascii ](c: &char) -> (r: bool)
+    ensures r == ((*c as u32) <= 0x7f);
+
 pub assume_specification<T>[ bool::then_some ](b: bool, t: T) -> (r: Option<T>)
     ensures r == (if b { Some(t) } else { None::<T> });
 
@@ -312,5 +321,18 @@ pub fn vx_nfc_collect(s: &str) -> (r: String)
 pub fn vx_nfkc_collect(s: &str) -> (r: String)
     ensures r@ == spec_nfkc(s@)
 { unimplemented!() /* s.nfkc().collect::<String>() */ }
+
+
+// names of the unicode-normalization crate that a change may start to use: present with NO contract (any result),
+// so that such code still reaches the verifier and fails the obligations it can no longer meet
+#[derive(PartialEq, Eq, Clone, Copy, Debug)]
+pub enum IsNormalized { Yes, No, Maybe }
+#[verifier::external_body]
+pub fn is_nfc_quick<I: Iterator<Item = char>>(s: I) -> IsNormalized { unimplemented!() }
+#[verifier::external_body]
+pub fn is_nfkc_quick<I: Iterator<Item = char>>(s: I) -> IsNormalized { unimplemented!() }
+#[verifier::external_body]
+pub fn is_nfd_quick<I: Iterator<Item = char>>(s: I) -> IsNormalized { unimplemented!() }
+pub assume_specification[ <IsNormalized as PartialEq>::eq ](a: &IsNormalized, b: &IsNormalized) -> (r: bool) ensures r == (*a == *b);
 
 } // mod vx
